@@ -5,7 +5,7 @@ PROPS = {
     "C05": {
         "tests": "^TestC05_",
         "quick": {"scale": 1.0, "timeout": 600},
-        "thorough": {"scale": 12.0, "shards": 16, "timeout": 1500, "fuzz": [("FuzzC05", 120)]},
+        "thorough": {"scale": 12.0, "shards": 16, "timeout": 3000, "fuzz": [("FuzzC05", 120)]},
         "rule": "rapid-generated I-JSON trees (strings over all Unicode scalar values with boosted control/surrogate-adjacent/"
                 "astral classes, numbers from raw IEEE-754 bits and boundary families, depth<=5/9) serialized in 3 surface "
                 "spellings each plus the Go-value path, and batches of doubles as [x]; oracle = independent RFC 8785 serializer "
@@ -57,7 +57,7 @@ PROPS.update({
     "C16": {
         "tests": "^TestC16_",
         "quick": {"scale": 4.0, "timeout": 600},
-        "thorough": {"scale": 200.0, "shards": 16, "timeout": 1500},
+        "thorough": {"scale": 200.0, "shards": 16, "timeout": 3600},
         "rule": "rapid: pool keys of all five types (searched keys with a leading zero byte in x and in y for every curve, over-weighted) "
                 "and fresh keys from drawn scalars/seeds; GetPublicKeyJWK must equal the harness' fixed-width encoding, read back to the "
                 "same key, and give refHash commitments / reveal values; then one modification (last-bit / random-bit change, shortened, "
@@ -71,7 +71,7 @@ PROPS.update({
     "C10": {
         "tests": "^TestC10_",
         "quick": {"scale": 1.0, "timeout": 900},
-        "thorough": {"scale": 60.0, "shards": 16, "timeout": 1800},
+        "thorough": {"scale": 60.0, "shards": 16, "timeout": 3000},
         "rule": "rapid: well-formed start document (0-4 keys, 0-3 services, also-known-as, other members; ids from a small alphabet so that "
                 "collisions are frequent) and 1-7 validated patches over all eight actions; ietf-json-patch operations are drawn over "
                 "existing / fresh / junk pointers and kept when RFC 6902 (reference evaluator) says they apply and they stay outside "
@@ -91,7 +91,7 @@ PROPS.update({
     "C11": {
         "tests": "^TestC11_",
         "quick": {"scale": 1.0, "timeout": 900},
-        "thorough": {"scale": 80.0, "shards": 16, "timeout": 1800, "fuzz": [("FuzzC11", 90)]},
+        "thorough": {"scale": 80.0, "shards": 16, "timeout": 3000, "fuzz": [("FuzzC11", 90)]},
         "rule": "rapid: document with keys, services and other members; ietf-json-patch of 1-4 operations over all six kinds whose "
                 "path and from are drawn (1/3) from a list of protected / look-alike pointers (/publicKey, /service, elements, "
                 "sub-members, '-', leading-zero indices, prefix siblings, case variants, escaped tokens, root, alsoKnownAs) and (2/3) "
@@ -268,7 +268,7 @@ PROPS.update({
     "C04": {
         "tests": "^TestC04_",
         "quick": {"scale": 2.0, "timeout": 900},
-        "thorough": {"scale": 100.0, "shards": 16, "timeout": 1800},
+        "thorough": {"scale": 100.0, "shards": 16, "timeout": 3000},
         "rule": "rapid: (a) keys of all five types from the pool or from drawn scalars/seeds, with or without a nonce of 1/8/16/32 "
                 "bytes, both hash algorithms: reveal value, commitment and commitment-from-reveal-value compared with refHash / "
                 "hash-of-hash over the harness' own JWK encoding; a second JWK differing in exactly one member (nonce, nonce presence, x, "
@@ -350,7 +350,7 @@ PROPS.update({
     "C19": {
         "tests": "^TestC19_",
         "quick": {"scale": 3.0, "timeout": 1500},
-        "thorough": {"scale": 30.0, "shards": 16, "timeout": 2400,
+        "thorough": {"scale": 30.0, "shards": 16, "timeout": 4800,
                      "fuzz": [("FuzzC19_ParseRequest", 90), ("FuzzC19_Bytes", 90), ("FuzzC19_Patch", 90), ("FuzzC19_ResolveDID", 60), ("FuzzC19_JWS", 60)]},
         "rule": "rapid structure-aware corruption: take a valid create/update/recover/deactivate (all key types), patch of any action, "
                 "long-form DID, JWS/JWK or JSON text and apply 1-3 corruptions (any node replaced by one of 22 hostile values of another "
